@@ -309,7 +309,20 @@ RESTART:
 		}
 		value.Set(right)
 	case reflect.Map:
-		value.SetMapIndex(reflect.ValueOf(&fields[lef]).Elem(), right)
+		if value.IsNil() {
+			left.errorf("can't assign to key %q of a nil map", fields[lef])
+		}
+		key := reflect.ValueOf(&fields[lef]).Elem()
+		if keyType := value.Type().Key(); !key.Type().AssignableTo(keyType) {
+			if !key.Type().ConvertibleTo(keyType) {
+				left.errorf("key %q can't be used with a map whose keys are of type %s", fields[lef], keyType)
+			}
+			key = key.Convert(keyType)
+		}
+		if right.IsValid() && !right.Type().AssignableTo(value.Type().Elem()) {
+			left.errorf("a value of type %s can't be assigned to key %q of a map with elements of type %s", getTypeString(right), fields[lef], value.Type().Elem())
+		}
+		value.SetMapIndex(key, right)
 	}
 }
 
